@@ -278,7 +278,8 @@ fn build_diff(
 }
 
 fn parse_digits0(s: &[u8]) -> Option<u32> {
-    if s.starts_with(b"0") {
+    // The width is stored in a single byte.
+    if s.starts_with(b"0") && s.len() <= usize::from(u8::MAX) {
         parse_u32(s).ok()
     } else {
         None
@@ -286,7 +287,12 @@ fn parse_digits0(s: &[u8]) -> Option<u32> {
 }
 
 fn parse_digits(s: &[u8]) -> Option<u32> {
-    parse_u32(s).ok()
+    // Plain digits are decoded without padding.
+    if s.starts_with(b"0") {
+        None
+    } else {
+        parse_u32(s).ok()
+    }
 }
 
 fn parse_delta(prev_token: &Token, s: &[u8]) -> Option<(u32, u8)> {
